@@ -8,6 +8,7 @@ package harness
 // blocks that follow.
 
 import (
+	lptypes "github.com/elys-network/elys/x/leveragelp/types"
 	ctypes "github.com/elys-network/elys/x/commitment/types"
 	"fmt"
 	"reflect"
@@ -248,6 +249,26 @@ func (h *Hist) govVestShock() string {
 		return "commitment.EdenVestsInto=" + d
 	}
 	return "commitment.EnableVestNow"
+}
+
+// govLpShock: governance re-submits a leverage-enabled pool with another leverage cap (the handler refuses a pool that exists already),
+// or removes one (refused while leveraged shares are recorded for it). Neither may touch what is recorded for the open positions.
+func (h *Hist) govLpShock() string {
+	p := h.pool(func(q PoolRef) bool { return q.Oracle })
+	if p.Id == 0 {
+		return ""
+	}
+	if h.r.Intn(3) == 0 {
+		if h.govApplyRecorded(&lptypes.MsgRemovePool{Authority: h.w.Gov, Id: p.Id}) {
+			return fmt.Sprintf("leveragelp.RemovePool(%d)", p.Id)
+		}
+		return ""
+	}
+	lev := []string{"2", "3", "5", "20"}[h.r.Intn(4)]
+	if h.govApplyRecorded(&lptypes.MsgAddPool{Authority: h.w.Gov, Pool: lptypes.AddPool{AmmPoolId: p.Id, LeverageMax: D(lev)}}) {
+		return fmt.Sprintf("leveragelp.AddPool(%d, %s)", p.Id, lev)
+	}
+	return ""
 }
 
 func (h *Hist) govVaultShock() string {
